@@ -127,6 +127,33 @@ def canonical_bodies():
     return out
 
 
+def tlc_bodies(pid, na, nk, maxops):
+    """every wiring of <= maxops binary ops over na arguments, enumerated by TLC (spec/BodyGen.tla)"""
+    import re
+    from common import SPEC, run_tlc
+    cfg = os.path.join(SPEC, f".BodyGen_{pid}.cfg")
+    with open(cfg, "w") as f:
+        f.write(f"SPECIFICATION Spec\nCONSTANTS\n  NA = {na}\n  NK = {nk}\n  MaxOps = {maxops}\nINVARIANT Emit\nCHECK_DEADLOCK FALSE\n")
+    try:
+        r = run_tlc("BodyGen", os.path.basename(cfg), workers=4, timeout=900)
+    finally:
+        os.remove(cfg)
+    out = set()
+    for mm in re.finditer(r'<<\s*"BODY",\s*<<([^>]*)>>\s*>>', r.out):
+        xs = [int(x) for x in re.findall(r"-?\d+", mm.group(1))]
+        out.add(tuple(xs))
+    if r.error or not out:
+        raise MachineryError(f"BodyGen produced nothing: {r.error}\n{r.out[-1000:]}")
+    return r, sorted(out)
+
+
+def render_body(flat, na, w):
+    kinds = {1: "muli", 2: "addi", 3: "subi"}
+    ref = lambda k: f"%b{k - 1}" if k <= na else f"%v{k - na}"
+    lines = [f"%v{i + 1} = arith.{kinds[flat[3 * i]]} {ref(flat[3 * i + 1])}, {ref(flat[3 * i + 2])} : i{w}" for i in range(len(flat) // 3)]
+    return [w] * na, lines, f"%v{len(flat) // 3}"
+
+
 def body_block(mod):
     from xdsl.dialects import linalg
     g = [o for o in mod.walk() if isinstance(o, linalg.GenericOp)]
@@ -145,6 +172,16 @@ def run(pid: str, tier: str, seed: int, selftest=False, replay=None) -> int:
         b = rand_body(rng, rng.choice(KERNEL_SHAPES) if rng.random() < 0.6 else None)
         if b is not None:
             bodies.append((f"gen:{seed}:{k}", b))
+    # exhaustive small scope: every wiring of <= 2 (thorough: 3, sampled) mul/add/sub operations over three arguments of one width
+    rg, flats = tlc_bodies(pid, 3, 3, 2 if quick else 3)
+    rep.add_tlc(rg)
+    if not quick:
+        big = [f for f in flats if len(f) == 9]
+        rng.shuffle(big)
+        flats = [f for f in flats if len(f) < 9] + big[:6000]
+    rep.extra["small_scope_bodies"] = len(flats)
+    for q, fl in enumerate(flats):
+        bodies.append(("small:" + "-".join(str(x) for x in fl), render_body(fl, 3, (8, 32, 64)[q % 3])))
     cases = []
     recognised = 0
     for name, (widths, lines, yv) in bodies:
@@ -169,7 +206,7 @@ def run(pid: str, tier: str, seed: int, selftest=False, replay=None) -> int:
             if pipe == "convert-linalg-to-kernel" and "kernel." in str(gb):
                 recognised += 1
             ia, ib = finish_image(export_body(ga.body.block, wmap)), finish_image(export_body(gb.body.block, wmap))
-            cases.append({"name": f"{name}|{pipe}", "A": ia, "B": ib, "argdom": domains(widths), "opqdom": [[0]],
+            cases.append({"name": f"{name}|{pipe}", "A": ia, "B": ib, "argdom": domains(widths, 125 if name.startswith("small:") else 320), "opqdom": [[0]],
                           "text": text, "after": str(gb), "pipe": pipe})
     rep.extra["bodies_recognised_as_kernels"] = recognised
     # rescale expansion at true widths with small values (no overflow anywhere)
